@@ -144,37 +144,6 @@ harness! {
     }
 }
 
-// union into an EMPTY filter from an ARBITRARY 2x2 table holding at most two fingerprints (so no eviction is ever needed and the
-// 500-kick loop is provably not entered): every class keeps its multiplicity, whatever the slot positions (gaps!) in `other`
-harness! {
-    #[kani::unwind(6)]
-    fn c06_cuckoo_union_two_into_empty() {
-        let (other, t, bh) = arbitrary_filter();
-        assume(other.n_elements <= 2);
-        let mut a = CF::with_params_and_hash(SymRng, 2, 2, 2, bh.clone());
-        let r = a.union(&other);
-        assert!(r.is_ok(), "C06 C14 union of at most bucketsize fingerprints into an empty filter succeeds");
-        assert!(a.n_elements == other.n_elements, "C06 C01 union: len is the number of transferred fingerprints");
-        let mut f = 1u64;
-        while f < 4 {
-            let spans = (bh.hb_f[f as usize] & 1) == 1;
-            let mut ca = [0usize; 2];
-            let mut co = [0usize; 2];
-            let mut x = 0;
-            while x < 4 {
-                if a.table.get(x as u64) == f { ca[x / 2] += 1; }
-                if t[x] == f { co[x / 2] += 1; }
-                x += 1;
-            }
-            if spans {
-                assert!(ca[0] + ca[1] == co[0] + co[1], "C06 C01 C14 union keeps the multiplicity of every fingerprint class");
-            } else {
-                assert!(ca[0] == co[0] && ca[1] == co[1], "C06 C01 C14 union keeps the multiplicity of every fingerprint class");
-            }
-            f += 1;
-        }
-        let mut x = 0;
-        while x < 4 { assert!(other.table.get(x as u64) == t[x], "C06 the other operand is unchanged"); x += 1; }
-        vcover!(t[0] == 0 && t[1] != 0, "a free slot in front of a used slot of the same bucket");
-    }
-}
+// (a union harness -- arbitrary 2x2 `other` with at most two fingerprints into an empty filter, so that no eviction is ever
+// needed -- was tried: CBMC exhausts 20 GB after 20 min, the unreachable 500-kick loop is still unwound for every transferred
+// slot.  Cuckoo union is decided by the Verus unit only; a change that restructures its loop is reported undecided.)
